@@ -120,9 +120,13 @@ func (v *varValidator) validateVarType(typ *ast.Type, val reflect.Value) (reflec
 				}
 				field = field.Elem()
 			}
-			_, err := v.validateVarType(typ.Elem, field)
+			cval, err := v.validateVarType(typ.Elem, field)
 			if err != nil {
 				return val, err
+			}
+			// keep what coercion produced for the item (a single value made a list), as for map fields
+			if item := val.Index(i); cval.IsValid() && item.CanSet() && cval.Type().AssignableTo(item.Type()) {
+				item.Set(cval)
 			}
 		}
 		return val, nil
